@@ -94,6 +94,9 @@ func ByteStreamConsumer(opts ...byteStreamOpt) Consumer {
 		case encoding.BinaryUnmarshaler:
 			return destinationPointer.UnmarshalBinary(b)
 		case *any:
+			if destinationPointer == nil {
+				return errors.New("nil destination for ByteStreamConsumer")
+			}
 			switch (*destinationPointer).(type) {
 			case string:
 				*destinationPointer = string(b)
